@@ -118,6 +118,8 @@ Definition preprocess (prop : str) (val : list vtok) : list vtok :=
 
 (* ---- blocks ---- *)
 Definition is_media_name (sel : list str) : bool := match sel with t :: _ => str_eqb t $"@media" | [] => false end.
+(* a block has something to print: a declaration (not only variable definitions) or an inner block *)
+Definition printable (props : list obj) : list obj := filter (fun o => match o with OVar => false | _ => true end) props.
 Definition obj_is_block (o : obj) : bool := match o with OBlock _ _ _ => true | _ => false end.
 Definition obj_is_media (o : obj) : bool :=
   match o with
@@ -154,7 +156,7 @@ Fixpoint eval_node (parent : option (list part)) (sc : scope) (n : node) {struct
       rbind (go (push sc) body) (fun inner =>
         let props := filter (fun o => negb (obj_is_block o)) inner in
         let blocks := filter obj_is_block inner in
-        ROk ((if Nat.eqb (length inner) 0 then [] else [OBlock (ONFrame sel) props blocks]), sc))
+        ROk ((if Nat.eqb (length (printable props ++ blocks)) 0 then [] else [OBlock (ONFrame sel) props blocks]), sc))
   | NBlock sel body =>
       let nameparsed := ident_parse parent sel in
       let name := ONIdent (is_subparse sel) nameparsed in
@@ -173,13 +175,13 @@ Fixpoint eval_node (parent : option (list part)) (sc : scope) (n : node) {struct
             match mb with
             | OBlock mname mprops minner =>
                 if is_media_name sel
-                then (if Nat.eqb (length (mprops ++ minner)) 0 then []
+                then (if Nat.eqb (length (printable mprops ++ minner)) 0 then []
                       else [OBlock (merge_media name mname) mprops minner])
-                else (if Nat.eqb (length (mprops ++ minner)) 0 then []
+                else (if Nat.eqb (length (printable mprops ++ minner)) 0 then []
                       else [OBlock mname [] [OBlock name mprops minner]])
             | _ => []
             end) medias in
-        let self := if Nat.eqb (length (props ++ blocks)) 0 then [] else [OBlock name props blocks] in
+        let self := if Nat.eqb (length (printable props ++ blocks)) 0 then [] else [OBlock name props blocks] in
         ROk (self ++ siblings, sc))
   end.
 
